@@ -164,7 +164,7 @@ def to_dict(spec):
         else:
             d[qual_full(spec, b, s) + a1(r, c)] = const_out(cell['v'])
     for nm in spec.get('names', []):
-        d[nm['name']] = '=' + rect_id_raw(spec, nm['rect'], ab=True)
+        d[nm['name']] = '=' + (spec['names'][nm['alias']]['name'] if 'alias' in nm else rect_id_raw(spec, nm['rect'], ab=True))
     return d
 
 
@@ -222,6 +222,8 @@ def write_files(spec, dirpath, sheet_order=None):
             sn = bk['sheets'][ns]
             sq = "'%s'" % sn.replace("'", "''") if needs_quote(sn) else sn
             txt = '%s!%s' % (sq, a1(r1, c1, True) if (r1, c1) == (r2, c2) else a1(r1, c1, True) + ':' + a1(r2, c2, True))
+            if 'alias' in nm:
+                txt = names[nm['alias']]['name']
             wb.defined_names[nm['name']] = DefinedName(nm['name'], attr_text=txt)
         p = os.path.join(dirpath, bk['name'])
         os.makedirs(os.path.dirname(p), exist_ok=True)
@@ -387,7 +389,7 @@ def depth_levels(spec):
 # ---------------------------------------------------------------- strategy
 @st.composite
 def specs(draw, tier='quick', max_books=2, arrays=True, names=True, wholecols=True, errors=True,
-          min_cells=4, max_cells=14, const=None, sheet_classes=None, name_rate=6, arr_rate=10):
+          min_cells=4, max_cells=14, const=None, sheet_classes=None, name_rate=6, arr_rate=10, alias_rate=0):
     nb = draw(st.integers(1, max_books))
     used_names = set()
     books = []
@@ -437,6 +439,10 @@ def specs(draw, tier='quick', max_books=2, arrays=True, names=True, wholecols=Tr
             rect = draw(_dense_rect(ctx)) if draw(st.booleans()) else draw(_rect(ctx, small=True))
             if rect is not None:
                 spec['names'].append({'name': NAME_POOL[len(spec['names'])], 'rect': list(rect), 'since': idx})
+                if alias_rate and len(spec['names']) < 3 and draw(st.integers(0, alias_rate - 1)) == 0:
+                    # a second name defined as the first one (ALIAS = BASE): same cells, one more inverse link in the chain
+                    j = len(spec['names']) - 1
+                    spec['names'].append({'name': NAME_POOL[j + 1], 'rect': list(rect), 'since': idx, 'alias': j})
         if arr is not None:
             t = draw(_array_tree(ctx, (arr[0] - key[2] + 1, arr[1] - key[3] + 1)))
             if t is not None:
